@@ -9,6 +9,7 @@ import (
 	"fmt"
 	"math/rand"
 	"strings"
+	"time"
 
 	. "github.com/pbenner/autodiff"
 	"verifharness/vh"
@@ -366,6 +367,8 @@ func record(path string, ntr, nops int) {
 	rng := rand.New(rand.NewSource(int64(seed)*7919 + 12))
 	out := vh.NewOut(path)
 	zero := step{Op: "make"}
+	// a hang of the library (or a walk that does not end on a corrupted structure) is an observation
+	wd := vh.NewWatchdog(30*time.Second, out, vh.M{"engine": "copysem", "part": "A", "mode": "record"})
 	for t := 0; t < ntr; t++ {
 		in := inst{sparse: rng.Intn(3) == 0, ti: []int{6, 8, 7, 5, 4, 0, 8, 6, 1, 2, 3}[rng.Intn(11)]}
 		r := &recorder{w: &world{rot: seed*131 + t, base: in}, base: in, rng: rng, out: out}
@@ -410,6 +413,7 @@ func record(path string, ntr, nops int) {
 				break
 			}
 			var probe []float64
+			wd.Begin(vh.M{"trace": t, "seed": seed, "step": st, "inst": desc})
 			msg = vh.Try(func() { probe, _ = r.w.apply(st) })
 			if msg != "" {
 				vh.Mismatch(out, vh.M{"engine": "copysem", "part": "A", "op": st.Op, "what": "panic", "storage": in.storage(), "elem": typeNames[in.ti], "mode": "record"},
@@ -436,6 +440,7 @@ func record(path string, ntr, nops int) {
 				}
 			}
 			out.Put(vh.M{"e": "call", "k": "", "r": 0, "c": 0, "vals": []int{}, "st": st, "res": res, "obs": ob, "sh": sh, "inst": desc, "t": t})
+			wd.End()
 		}
 	}
 	out.Close()
